@@ -372,6 +372,14 @@ type Fs struct {
 	Owner   string
 	G       *Gate
 	handles atomic.Int64
+	open    sync.Map // *File -> name and labels of the call that opened it
+}
+
+// OpenNames lists the files opened through this wrapper and not closed yet (with the API labels of the opening call).
+func (f *Fs) OpenNames() []string {
+	var out []string
+	f.open.Range(func(k, v any) bool { out = append(out, v.(string)); return true })
+	return out
 }
 
 func New(base afero.Fs, owner string, g *Gate) *Fs { return &Fs{Base: base, Owner: owner, G: g} }
@@ -386,7 +394,22 @@ func (f *Fs) wrapFile(file afero.File, err error, name string) (afero.File, erro
 		return file, err
 	}
 	f.handles.Add(1)
-	return &File{File: file, fs: f, name: name}, nil
+	w := &File{File: file, fs: f, name: name}
+	pcs := make([]uintptr, 24)
+	n := runtime.Callers(3, pcs)
+	frames := runtime.CallersFrames(pcs[:n])
+	where := ""
+	for i := 0; i < 10; i++ {
+		fr, more := frames.Next()
+		if i >= 1 {
+			where += " <- " + fr.Function[strings.LastIndex(fr.Function, "/")+1:]
+		}
+		if !more {
+			break
+		}
+	}
+	f.open.Store(w, name+where)
+	return w, nil
 }
 
 func (f *Fs) Create(name string) (afero.File, error) {
@@ -658,6 +681,7 @@ func (f *File) Close() error {
 	err := f.File.Close()
 	if f.closed.CompareAndSwap(false, true) {
 		f.fs.handles.Add(-1)
+		f.fs.open.Delete(f)
 	}
 	done.Finish(err, 0, f.fs.OpenHandles())
 	return err
